@@ -89,7 +89,7 @@ Fixpoint kind_of (r : list lop) (id : nat) : option kind :=
   match r with
   | [] => None
   | LCreate k :: r' => if id =? nallocs r' then Some k else kind_of r' id
-  | LReassign j :: r' => if id =? nallocs r' then kind_of r' j else kind_of r' id
+  | LReassign j k :: r' => if id =? nallocs r' then Some k else kind_of r' id
   | LUse _ :: r' => kind_of r' id
   end.
 (** how often the object was consumed since it was created / last got a fresh wire *)
@@ -98,17 +98,18 @@ Fixpoint uses (r : list lop) (id : nat) : nat :=
   | [] => 0
   | LCreate _ :: r' => if id =? nallocs r' then 0 else uses r' id
   | LUse j :: r' => if id =? j then S (uses r' id) else uses r' id
-  | LReassign j :: r' => if id =? nallocs r' then 1 else if id =? j then 0 else uses r' id
+  | LReassign j _ :: r' => if id =? nallocs r' then 1 else if id =? j then 0 else uses r' id
   end.
 (** every Guppy type that is copyable is droppable (there are no relevant types) *)
 Definition wf_kind (k : kind) : Prop := copyable k = true -> droppable k = true.
-Definition wf_ops (ops : list lop) : Prop := forall k, In (LCreate k) ops -> wf_kind k.
+Definition wf_ops (ops : list lop) : Prop :=
+  forall k, (In (LCreate k) ops \/ exists j, In (LReassign j k) ops) -> wf_kind k.
 (** the operation is allowed after history r *)
 Definition allowed (r : list lop) (o : lop) : Prop :=
   match o with
   | LCreate _ => True
   | LUse j => exists k, kind_of r j = Some k /\ (copyable k = true \/ uses r j = 0)
-  | LReassign j => exists k, kind_of r j = Some k
+  | LReassign j _ => exists k, kind_of r j = Some k
   end.
 
 Definition Inv (r : list lop) (s : st) : Prop :=
@@ -221,13 +222,13 @@ Proof.
 Qed.
 
 (* ---- reassign *)
-Lemma step_reassign : forall r s j, Inv r s ->
-  match step (LReassign j) s with
-  | Ok s' => allowed r (LReassign j) /\ Inv (LReassign j :: r) s'
-  | Err e => ~ allowed r (LReassign j) /\ e = ENoObj j
+Lemma step_reassign : forall r s j k2, Inv r s -> wf_kind k2 ->
+  match step (LReassign j k2) s with
+  | Ok s' => allowed r (LReassign j k2) /\ Inv (LReassign j k2 :: r) s'
+  | Err e => ~ allowed r (LReassign j k2) /\ e = ENoObj j
   end.
 Proof.
-  intros r s j I. pose proof (kind_of_fresh _ _ I) as F. pose proof I as (N & O & U & K).
+  intros r s j k2 I W2. pose proof (kind_of_fresh _ _ I) as F. pose proof I as (N & O & U & K).
   unfold step. rewrite O. destruct (kind_of r j) as [k|] eqn:E.
   2:{ simpl. split; [intros [k H]; congruence | reflexivity]. }
   simpl okind. destruct (K _ _ E) as (W & L & C1).
@@ -235,11 +236,11 @@ Proof.
   rewrite create_eq. unfold create'. rewrite update_leaf_eq. unfold update_leaf', use_wire'. simpl.
   unfold upd at 1. rewrite N, Nat.eqb_refl. simpl.
   (* the fresh object is popped iff it was registered *)
-  set (u1 := if negb (droppable k) then dict_set (nallocs r) (unused s) else unused s).
-  assert (P : exists u2, (if negb (droppable k) then match dict_pop (nallocs r) u1 with Some u => Ok (mkSt (S (nallocs r)) (upd (upd (objs s) (nallocs r) (mkObj k false)) (nallocs r) (mkObj k true)) u) | None => Err (EKeyError (nallocs r)) end else Ok (mkSt (S (nallocs r)) (upd (upd (objs s) (nallocs r) (mkObj k false)) (nallocs r) (mkObj k true)) u1))
-             = Ok (mkSt (S (nallocs r)) (upd (upd (objs s) (nallocs r) (mkObj k false)) (nallocs r) (mkObj k true)) u2)
+  set (u1 := if negb (droppable k2) then dict_set (nallocs r) (unused s) else unused s).
+  assert (P : exists u2, (if negb (droppable k2) then match dict_pop (nallocs r) u1 with Some u => Ok (mkSt (S (nallocs r)) (upd (upd (objs s) (nallocs r) (mkObj k2 false)) (nallocs r) (mkObj k2 true)) u) | None => Err (EKeyError (nallocs r)) end else Ok (mkSt (S (nallocs r)) (upd (upd (objs s) (nallocs r) (mkObj k2 false)) (nallocs r) (mkObj k2 true)) u1))
+             = Ok (mkSt (S (nallocs r)) (upd (upd (objs s) (nallocs r) (mkObj k2 false)) (nallocs r) (mkObj k2 true)) u2)
              /\ forall x, In x u2 <-> In x (unused s)).
-  { subst u1. destruct (droppable k) eqn:D; simpl.
+  { subst u1. destruct (droppable k2) eqn:D; simpl.
     - exists (unused s). split; [reflexivity | tauto].
     - destruct (dict_pop (nallocs r) (dict_set (nallocs r) (unused s))) as [u|] eqn:Pp.
       + exists u. split; [reflexivity|]. apply dict_pop_Some in Pp. destruct Pp as [_ Pp].
@@ -255,7 +256,7 @@ Proof.
   - reflexivity.
   - unfold upd. destruct (id =? j) eqn:E1.
     + apply Nat.eqb_eq in E1. subst id. rewrite Ej. rewrite E. reflexivity.
-    + destruct (id =? nallocs r) eqn:E2; [rewrite E; reflexivity | apply O].
+    + destruct (id =? nallocs r) eqn:E2; [reflexivity | apply O].
   - intros H. assert (H' : id = j /\ droppable k = false \/ In id (unused s)).
     { destruct (negb (droppable k) && (0 <? uses r j)) eqn:B.
       - apply dict_set_In in H. destruct H as [->|H]; [|right; apply P2; exact H].
@@ -275,28 +276,28 @@ Proof.
       * apply P2. apply U. exists k. apply Nat.ltb_ge in Us. repeat split; auto. lia.
     + assert (In id (unused s)) by (apply U; exists k'; auto).
       destruct (negb (droppable k) && (0 <? uses r j)); [apply dict_set_In; right|]; apply P2; assumption.
-  - destruct (id =? nallocs r) eqn:E2; [assert (k0 = k) by congruence; subst; exact W | apply K in H; tauto].
+  - destruct (id =? nallocs r) eqn:E2; [assert (k0 = k2) by congruence; subst; exact W2 | apply K in H; tauto].
   - destruct (id =? nallocs r) eqn:E2; [apply Nat.eqb_eq in E2; lia | apply K in H; lia].
   - intros Hc. destruct (id =? nallocs r) eqn:E2; [lia|].
     destruct (id =? j); [lia | apply K in H; tauto].
 Qed.
 
 (* ---- any step *)
-Lemma step_char : forall r s o, Inv r s -> (forall k, o = LCreate k -> wf_kind k) ->
+Lemma step_char : forall r s o, Inv r s -> (forall k, (o = LCreate k \/ exists j, o = LReassign j k) -> wf_kind k) ->
   match step o s with
   | Ok s' => allowed r o /\ Inv (o :: r) s'
   | Err e => ~ allowed r o /\
              e = match o with
                  | LUse j => match kind_of r j with None => ENoObj j | Some _ => EAlreadyUsed j end
-                 | LReassign j => ENoObj j
+                 | LReassign j _ => ENoObj j
                  | LCreate _ => EStuck
                  end
   end.
 Proof.
-  intros r s [k|j|j] I W.
+  intros r s [k|j|j k] I W.
   - simpl. split; [exact Logic.I | apply step_create; auto].
   - apply use_wire_char; exact I.
-  - apply step_reassign; exact I.
+  - apply step_reassign; [exact I | apply W; right; exists j; reflexivity].
 Qed.
 
 Lemma lrun_app : forall a b s, lrun (a ++ b) s = bind (lrun a s) (lrun b).
@@ -321,9 +322,11 @@ Proof.
   induction ops as [|o t IH]; intros r s I W; simpl.
   - split; [exact Logic.I | exact I].
   - pose proof (step_char r s o I) as H.
-    assert (Wo : forall k, o = LCreate k -> wf_kind k) by (intros k ->; apply W; left; reflexivity).
+    assert (Wo : forall k, (o = LCreate k \/ exists j, o = LReassign j k) -> wf_kind k).
+    { intros k [->|[j ->]]; apply W; [left; left; reflexivity | right; exists j; left; reflexivity]. }
     specialize (H Wo). destruct (step o s) as [s'|e]; simpl.
-    + destruct H as [A I']. assert (Wt : wf_ops t) by (intros k Hk; apply W; right; exact Hk).
+    + destruct H as [A I']. assert (Wt : wf_ops t).
+      { intros k [Hk|[j Hk]]; apply W; [left; right; exact Hk | right; exists j; right; exact Hk]. }
       specialize (IH (o :: r) s' I' Wt). destruct (lrun t s').
       * destruct IH as [L I'']. split; [split; assumption|]. rewrite <- app_assoc. exact I''.
       * intros [_ L]. apply IH. exact L.
@@ -345,7 +348,9 @@ Qed.
 
 (* ------------------------------------------------------------------------------ use_once *)
 Lemma wf_ops_app : forall a b, wf_ops (a ++ b) -> wf_ops a.
-Proof. intros a b W k H. apply W. apply in_or_app. auto. Qed.
+Proof.
+  intros a b W k [H|[j H]]; apply W; [left | right; exists j]; apply in_or_app; auto.
+Qed.
 
 Lemma use_once_lemma : forall pre suf s id k, wf_ops (pre ++ suf) -> lrun (pre ++ suf) st0 = Ok s ->
   kind_of (rev pre) id = Some k -> copyable k = false -> uses (rev pre) id <= 1.
@@ -380,13 +385,14 @@ Qed.
 
 Lemma reassign_resets_lemma : forall ops s id k, wf_ops ops -> lrun ops st0 = Ok s ->
   kind_of (rev ops) id = Some k ->
-  exists s', lrun (ops ++ [LReassign id]) st0 = Ok s' /\ uses (rev (ops ++ [LReassign id])) id = 0
-             /\ kind_of (rev (ops ++ [LReassign id])) id = Some k.
+  forall k2, wf_kind k2 ->
+  exists s', lrun (ops ++ [LReassign id k2]) st0 = Ok s' /\ uses (rev (ops ++ [LReassign id k2])) id = 0
+             /\ kind_of (rev (ops ++ [LReassign id k2])) id = Some k.
 Proof.
-  intros ops s id k W H E. rewrite lrun_app, H.
-  change (bind (Ok s) (lrun [LReassign id])) with (lrun [LReassign id] s). rewrite lrun_single.
+  intros ops s id k W H E k2 W2. rewrite lrun_app, H.
+  change (bind (Ok s) (lrun [LReassign id k2])) with (lrun [LReassign id k2] s). rewrite lrun_single.
   apply lrun_inv in H; [|exact W]. destruct H as [_ I].
-  pose proof (step_reassign _ _ id I) as G. destruct (step (LReassign id) s) as [s'|e].
+  pose proof (step_reassign _ _ id k2 I W2) as G. destruct (step (LReassign id k2) s) as [s'|e].
   - exists s'. split; [reflexivity|]. rewrite rev_app_distr. simpl.
     pose proof (kind_of_lt _ _ _ _ I E) as L.
     assert (id =? nallocs (rev ops) = false) by (apply Nat.eqb_neq; lia).
